@@ -451,6 +451,110 @@ def mut_self_to_local(text: str, name: str, report: DropReport, item: str) -> st
     return fr.apply()
 
 
+def expand_macro_rules(src, name: str, invocation: int, report: DropReport, item: str) -> str:
+    """W15: textual expansion of ONE invocation of `macro_rules! NAME { ($(( $a:tt, $b:tt, .. )),*) => { BODY } }`.
+    Supported: a single rule whose matcher is a comma-separated repetition of parenthesised tuples of `tt`
+    metavariables, and a transcriber using single-level `$( .. ) SEP? *` repetitions and those metavariables."""
+    text = src.text
+    m = re.search(r"macro_rules!\s*" + re.escape(name) + r"\s*\{", text)
+    if not m:
+        raise ExtractError(f"{item}: macro_rules! {name} not found")
+    ct = src.ct
+    k = next(i for i, t in enumerate(ct) if t.start >= m.end() - 1 and t.text == "{")
+    kend = R.match_close(ct, k)
+    # matcher: ( $( ( $x:tt, $y:tt ) ),* )
+    j = k + 1
+    if ct[j].text != "(":
+        raise ExtractError(f"{item}: unsupported macro matcher")
+    jm = R.match_close(ct, j)
+    metas = [ct[i + 1].text for i in range(j, jm) if ct[i].text == "$" and ct[i + 1].kind == "ident" and ct[i + 2].text == ":"]
+    # transcriber
+    a = jm + 1
+    while ct[a].text != "{":
+        a += 1
+    b = R.match_close(ct, a)
+    if any(ct[i].text == "=" and ct[i + 1].text == ">" for i in range(b + 1, kend)):
+        raise ExtractError(f"{item}: macro {name} has several rules (unsupported)")
+    body_toks = ct[a + 1:b]
+    # the invocation's arguments
+    invs = [it for it in src.top_items() if it.kind == "macro" and it.name == name]
+    if invocation >= len(invs):
+        raise ExtractError(f"{item}: invocation #{invocation} of {name}! not found ({len(invs)} invocations)")
+    inv = invs[invocation]
+    itoks = [t for t in ct if inv.start <= t.start < inv.end]
+    o = next(i for i, t in enumerate(itoks) if t.text in R.OPEN)
+    args = []
+    depth = 0
+    cur = None
+    for t in itoks[o + 1:-1]:
+        if t.text == "(":
+            depth += 1
+            if depth == 1:
+                cur = []
+                continue
+        if t.text == ")":
+            depth -= 1
+            if depth == 0 and cur is not None:
+                parts = [[]]
+                for x in cur:
+                    if x.text == "," and True:
+                        parts.append([])
+                    else:
+                        parts[-1].append(x.text)
+                args.append([" ".join(p) for p in parts])
+                cur = None
+                continue
+        if depth >= 1 and cur is not None:
+            cur.append(t)
+    for tup in args:
+        if len(tup) != len(metas):
+            raise ExtractError(f"{item}: invocation tuple {tup} does not match metavariables {metas}")
+
+    def subst(tokens, env):
+        out = []
+        i = 0
+        while i < len(tokens):
+            t = tokens[i]
+            if t.text == "$" and i + 1 < len(tokens) and tokens[i + 1].text == "(":
+                # repetition group
+                depth = 0
+                e = i + 1
+                while True:
+                    if tokens[e].text in R.OPEN:
+                        depth += 1
+                    elif tokens[e].text in R.CLOSE:
+                        depth -= 1
+                        if depth == 0:
+                            break
+                    e += 1
+                inner = tokens[i + 2:e]
+                nxt = e + 1
+                sep = None
+                if tokens[nxt].text != "*":
+                    sep = tokens[nxt].text
+                    nxt += 1
+                if tokens[nxt].text != "*":
+                    raise ExtractError(f"{item}: only `*` repetitions are supported")
+                pieces = [subst(inner, dict(zip(metas, tup))) for tup in args]
+                out.append((" " + sep + " ").join(pieces) if sep else " ".join(pieces))
+                i = nxt + 1
+                continue
+            if t.text == "$" and i + 1 < len(tokens) and tokens[i + 1].kind == "ident" and tokens[i + 1].text in env:
+                out.append(env[tokens[i + 1].text])
+                i += 2
+                continue
+            out.append(t.text)
+            i += 1
+        # re-join tokens; keep `::`, `.`, paths readable -- a token stream, spacing is irrelevant to the lexer
+        return " ".join(out)
+
+    expanded = subst(body_toks, {})
+    expanded = re.sub(r" ([;{}]) ", lambda mm: " " + mm.group(1) + "\n", expanded)
+    # tuple field access `x . 0` and paths were split by spaces: harmless; but `# [ attr ]` must stay an attribute
+    report.add("W15", item, f"invocation #{invocation} `{name}!({', '.join('(' + ', '.join(t) + ')' for t in args)})` expanded from its macro_rules! definition (comments dropped)")
+    return expanded + "\n"
+
+
 def for_to_while(text: str, anchor: str, itname: str, report: DropReport, item: str) -> str:
     """W14: `for PAT in &EXPR {` -> `let mut IT = EXPR.iter(); while let Some(PAT) = IT.next() {` -- the language's own
     desugaring of a `for` over `&Vec<T>` / `&[T]` (IntoIterator for &Vec<T> is `.iter()`).  Needed where the body uses
@@ -831,6 +935,11 @@ class Unit:
     def _extract_item(self, icfg: dict, variant: Optional[str], vacuity: bool = False) -> Chunk:
         relfile = icfg["file"]
         src = R.Source(os.path.join(REPO, relfile))
+        if icfg.get("macro_expand"):
+            # W15: one invocation of a macro_rules! macro is expanded mechanically (single-level `$( .. ) sep? *`
+            # repetitions over the invocation's argument tuples); the expansion is then extracted like source text
+            expanded = expand_macro_rules(src, icfg["macro_expand"], int(icfg.get("invocation", 0)), self.report, icfg.get("label", icfg["select"]))
+            src = R.Source(os.path.join(REPO, relfile) + f"#expansion-of-{icfg['macro_expand']}", expanded)
         it = src.find(icfg["select"])
         label = icfg.get("label", icfg["select"])
         substs = list(self.cfg.get("subst", [])) + list(icfg.get("subst", []))
